@@ -6,7 +6,8 @@ Pipeline
     FormPlan.cases(k)    -> every assignment with <= k slots deviating from the default (tuples of value indexes)
     FormPlan.render(ch)  -> Case: .emit (line for harness/emit_a64), .ref (GNU/LLVM assembly text or None),
                             .expect ([(db field, value)] for the template leg), .ev (reference-side reasons why the
-                            operands are NOT encodable: 'badid', 'gp31', 'imm', 'off', 'idx', ...)
+                            operands are NOT encodable, '<kind>:<slot>' with kind in badid, gp31, imm, off, idx, shift, arr,
+                            vm-range, pair), .flags (zero_wb, plain_b, movimm / modimm = value-leg requests)
 
 The reference-side validity predicates in here are written from the Arm ARM (A64 instruction descriptions), never from
 AsmJit sources.  The db syntax is only used to know *which operands a form has*; where the db text is known to be loose
@@ -217,6 +218,17 @@ def fmt_imm(v):
     if isinstance(v, int) and abs(v) > 0xFFFF:
         return "#0x%x" % v if v >= 0 else "#-0x%x" % (-v)
     return "#%d" % v
+
+
+def has_ev(case, kind):
+    """Does the case carry a reference-side 'not encodable' reason of that kind ('badid', 'gp31', 'imm', 'off', ...)?"""
+    return any(e == kind or e.startswith(kind + ":") for e in case.ev)
+
+
+def primary_ev(case):
+    """The one reason that goes into the violation key: invalid register ids first, then SP/ZR, then the rest."""
+    order = {"badid": 0, "gp31": 1}
+    return sorted(case.ev, key=lambda e: (order.get(e.split(":")[0], 2), e))[0] if case.ev else ""
 
 
 class Case:
@@ -540,9 +552,9 @@ class Builder:
             r.add(gp_name(w, v, False), gp_name(w, v, True))
             r.expect.append((field, gp_field(v)))
             if gp_bad(v):
-                r.ev.append("badid")
+                r.ev.append("badid:" + sl)
             elif (v == "sp" and not s["sp"]) or (v == "zr" and s["sp"]):
-                r.ev.append("gp31")
+                r.ev.append("gp31:" + sl)
         p.renderers.append(fn)
 
     # -- scalar vector register ------------------------------------------------------------------------------------
@@ -560,7 +572,7 @@ class Builder:
             r.add(nm, None if vec_bad(v) else nm)
             r.expect.append((field, v & 31))
             if vec_bad(v):
-                r.ev.append("badid")
+                r.ev.append("badid:" + sl)
         p.renderers.append(fn)
 
     # -- vector register with arrangement / element ------------------------------------------------------------------
@@ -635,11 +647,11 @@ class Builder:
             r.add(e, None if vec_bad(v) else t)
             r.expect.append((field, v & ((1 << fbits) - 1)))
             if vec_bad(v):
-                r.ev.append("badid")
+                r.ev.append("badid:" + sl)
             elif v >= (1 << fbits):
-                r.ev.append("vm-range")      # restricted register range (Vm:4 -> v0..v15)
+                r.ev.append("vm-range:" + sl)      # restricted register range (Vm:4 -> v0..v15)
             if emax is not None and iv > emax:
-                r.ev.append("idx")
+                r.ev.append("idx:" + isl)
         p.renderers.append(fn)
 
     # -- register list -----------------------------------------------------------------------------------------------
@@ -668,9 +680,9 @@ class Builder:
                     r.add(gp_name(w, vj, False), gp_name(w, vj, True))
                 r.expect.append((field, gp_field(v)))
                 if gp_bad(v):
-                    r.ev.append("badid")
+                    r.ev.append("badid:" + sl)
                 elif v == "zr" or (n == 2 and (v & 1)):
-                    r.ev.append("pair")          # CASP/SYSP pairs: Rs must be even and below 31
+                    r.ev.append("pair:" + sl)          # CASP/SYSP pairs: Rs must be even and below 31
             p.renderers.append(fn)
             return
         # vector list
@@ -709,12 +721,12 @@ class Builder:
                     refs.append("v%d.%s" % (vj, arr))
             if vec_bad(v):
                 r.ref_ok = False
-                r.ev.append("badid")
+                r.ev.append("badid:" + sl)
             else:
                 r.ref.append("{ " + ", ".join(refs) + " }" + ("[%d]" % ctx[isl] if isl is not None else ""))
             r.expect.append((field, v & 31))
             if emax is not None and ctx[isl] > emax:
-                r.ev.append("idx")
+                r.ev.append("idx:" + isl)
         p.renderers.append(fn)
 
     # -- shift / extend operand --------------------------------------------------------------------------------------
@@ -768,7 +780,7 @@ class Builder:
             t = "%s #%d" % v
             r.add(t, t)
             if not ok(v):
-                r.ev.append("shift")
+                r.ev.append("shift:" + sl)
         p.renderers.append(fn)
 
     # -- memory operand ------------------------------------------------------------------------------------------------
@@ -822,9 +834,9 @@ class Builder:
             if bfield:
                 r.expect.append((bfield, gp_field(b)))
             if gp_bad(b):
-                r.ev.append("badid")
+                r.ev.append("badid:" + bsl)
             elif b == "zr":
-                r.ev.append("gp31")
+                r.ev.append("gp31:" + bsl)
             e_in = [be]
             r_in = [br]
             post_ref = None
@@ -857,11 +869,11 @@ class Builder:
                 ie, ir = gp_name(w, iv, False), gp_name(w, iv, True)
                 r.expect.append((ifield, gp_field(iv)))
                 if gp_bad(iv):
-                    r.ev.append("badid")
+                    r.ev.append("badid:" + isl)
                 elif iv == "sp":
-                    r.ev.append("gp31")
+                    r.ev.append("gp31:" + isl)
                 elif iv == "zr" and mode == "post":
-                    r.ev.append("gp31")     # post-index register 31 means "immediate" form, xzr is not an index
+                    r.ev.append("gp31:" + isl)     # post-index register 31 means "immediate" form, xzr is not an index
                 e_in.append(ie)
                 if mode == "post":
                     post_ref = ir
@@ -881,7 +893,7 @@ class Builder:
                         r_in.append(ext[0])
                     amt = s["ext"]["amount"]
                     if ext[0] not in ("lsl", "uxtw", "sxtw", "sxtx") or ext[1] not in (0, amt):
-                        r.ev.append("shift")
+                        r.ev.append("shift:" + esl)
             if br is None:
                 r.ref_ok = False
             suffix_e = {"off": "", "pre": "!", "post": "@"}[mode]
@@ -1022,7 +1034,7 @@ class ImmKinds:
             r.add(fmt(v, ctx), fmt_ref(v, ctx))
             ok = valid(v, ctx)
             if not ok:
-                r.ev.append("imm")
+                r.ev.append("imm:" + sl)
             elif field is not None and enc is not None:
                 r.expect.append((field, enc(v, ctx)))
             if hook is not None:
@@ -1080,7 +1092,7 @@ class ImmKinds:
                 r.add(c, c)
                 if inv:
                     if c in ("al", "nv"):
-                        r.ev.append("imm")
+                        r.ev.append("imm:" + sl)
                     elif field:
                         r.expect.append((field, COND_ENC[c] ^ 1))
                 elif field:
@@ -1274,7 +1286,7 @@ class ImmKinds:
                     r.expect.append(("op2", v << 1))
                 else:
                     r.ref_ok = False
-                    r.ev.append("imm")
+                    r.ev.append("imm:" + sl)
             self.p.renderers.append(fn)
             return
         if nm == "imm1" and iname in ("addg", "subg"):
@@ -1369,14 +1381,14 @@ class ImmKinds:
             elif sh is None:
                 lane = v
             else:
-                if v > 0xFF:
-                    return None
                 if sh[0] == "lsl":
+                    # (an immediate wider than 8 bits with an explicit LSL still denotes the lane value imm << amount;
+                    # whether some encoding produces that lane pattern is decided by the expressible-set below)
                     if sh[1] % 8 or sh[1] >= es:
                         return None
                     lane = v << sh[1]
                 elif sh[0] == "msl":
-                    if es != 32 or sh[1] not in (8, 16) or cls != "mov":
+                    if v > 0xFF or es != 32 or sh[1] not in (8, 16) or cls != "mov":
                         return None
                     lane = (v << sh[1]) | ((1 << sh[1]) - 1)
                 else:
